@@ -82,3 +82,22 @@ PROPS['C03'] = dict(
     technique='reference-model monitor over boundary-biased probe instants; release + debug-assertion builds; model corroborated by zdump and CPython zoneinfo',
     design_ref='DESIGN.md section 4, C03',
 )
+
+PROPS['C04'] = dict(
+    sub='c04',
+    prep=['synth'],
+    quick=[S('rel'), S('dbg', 'zone_stride=4')],
+    thorough=[S('rel'), S('dbg')],
+    rule='same zone corpus as C03. Per zone, for every offset change T (explicit and rule transitions of the probe years) the wall-clock window [T+min(o1,o2), T+max(o1,o2)) is probed at '
+         'start-1s, start-1ns, start, start+1ns, start+1s, start+1/2s, middle, end-1/2s, end-1s, end-1ns, end, end+1ns, end+1s; plus DateTime::MIN/MAX +-26h and seeded civil datetimes; '
+         'each through to_ambiguous_timestamp/to_ambiguous_zoned x 4 strategies (named methods and disambiguate), to_timestamp, to_zoned, DateTime::to_zoned. '
+         'Two oracles: the statement\'s own counting rule evaluated with jiff\'s forward map, and the corroborated reference model. '
+         'distinct_nontrivial = distinct (zone, T) with a real offset change whose gap/fold window was probed',
+    floors={'any': {'zones': 1000, 'gaps': 100000, 'folds': 100000, 'offset_changes_probed': 100000}},
+    assumptions=TZ_ASSUME + ['civil times shown by three or more instants (back-to-back folds) are outside the stated trichotomy: counted, no verdict',
+                             'zones whose POSIX rule is subject to known finding D10 are only judged on their explicit-transition part'],
+    level_text='Reference-model and metamorphic monitoring: for ~1700 zones the classification of civil datetimes bracketing every gap/fold window to the nanosecond is compared both with the statement\'s counting rule evaluated through jiff\'s own instant->offset map and with the independent model; every strategy\'s selected instant is compared with the documented one.',
+    level_note='Trusted base as C03. Gap offsets = offsets in force just before/after the skipped window of the unique forward jump containing the civil time.',
+    technique='reference-model + self-consistency (metamorphic) monitor over boundary-exhaustive civil probes; release + debug-assertion builds',
+    design_ref='DESIGN.md section 4, C04',
+)
